@@ -115,6 +115,11 @@ def run(ctx):
     seen = set()
     for kind in ("differ", "flavor", "nb-unsupported"):
         for r in cls.get(kind, []):
+            if r["name"].startswith("aktyper__"):
+                # the typer lattice needs no compilation: the two type descriptions are the replay
+                ctx.fail(f"ak-typer:{r['name'][9:]}", f"an Awkward record with fields {r['name'][9:]} is typed {strip(r['nb'])} in compiled code, the equivalent object {strip(r['py'])}",
+                         {"names": r["name"][9:].split(",")})
+                continue
             k = (kind, r["fam"], r["name"], tuple(s["dim"] for s in r["srcs"]))
             if k in seen and not deep:
                 continue
@@ -133,7 +138,7 @@ def run(ctx):
                 extra["force_spacelike"] = True
             add_probe(r, "known:" + kind, **extra)
     # 3. validation of T5 against real compilation: seeded sample over every family (both-return points first)
-    pool = [r for k in ("agree", "reflected-eq", "known-flavor") for r in cls.get(k, [])]
+    pool = [r for k in ("agree", "reflected-eq", "known-flavor") for r in cls.get(k, []) if not r["name"].startswith("aktyper__")]
     by = {}
     for r in pool:
         by.setdefault((r["fam"], r["name"]), []).append(r)
@@ -146,6 +151,7 @@ def run(ctx):
             add_probe(rows[rng.randrange(len(rows))], "validate")
     # typing errors T5 predicts (unregistered spellings, wrong dimension): the real compiler must refuse too
     neg = cls.get("unregistered", []) + [r for r in cls.get("both-fail", []) if r["fam"] in ("getter", "unary")]
+    neg = [r for r in neg if not r["name"].startswith("aktyper__")]
     for r in rng.sample(neg, min(len(neg), 24 if deep else 6)):
         add_probe(r, "validate-raise")
     for p in probes:
